@@ -91,3 +91,16 @@ Definition run_percent (pagesize : Z) (has_rollup : bool) (rmode : Z) (ex : list
            && (negb has_rollup || negb (rmode =? 0) || (wf_rollup rl && consistent rl ms))
            && negb (rmode =? 3) && (0 <? total)
         then jv_outcome jv_ratio (spec_percent memtype (spec_full pagesize r ms) total) else jnone) ].
+
+(* memory_percent with arbitrary process state / file errors: the name is validated before
+   anything is read, so an unknown name demands ValueError whatever the files answer *)
+Definition run_percent_raw (psn pagesize : Z) (has_rollup : bool) (rmode : Z) (rollup : bytes)
+           (smode : Z) (smaps : bytes) (tmode : Z) (statm : bytes) (memtype : bytes) (total : Z) : jv :=
+  let ps := ps_of psn in
+  let mi := with_file ps (fr tmode statm) (memory_info pagesize) in
+  let mfi := memory_full_info ps pagesize has_rollup (fr rmode rollup) (fr smode smaps) (fr tmode statm) in
+  JL [ jv_outcome jv_ratio (memory_percent memtype mi mfi total);
+       (match index_of memtype full_names with
+        | None => jv_outcome jv_ratio (@Exc (Z * Z) ValueError)
+        | Some _ => jnone
+        end) ].
